@@ -71,9 +71,12 @@ def run(ctx):
     for (c1, c2, bad) in viol[:1]:
         ctx.violation({"kind": "property-fails-on-implementation", "crystal_a": c1["crystal"], "crystal_b": c2["crystal"], "sg": c1["sg"],
                        "tol_a": c1.get("tol", 1e-3), "tol_b": c2.get("tol", 1e-3),
+                       "getters_called_first_a": rows[c1["id"]].get("getters_called_first"), "getters_called_first_b": rows[c2["id"]].get("getters_called_first"),
+                       "getters_meaning": "public get_* methods of the SymmetryAnalyzer called (in this order) before the examined calls; null = none",
                        "presentation_b": c2["pres"], "failed_clauses": bad, "broken_obligation": broken}, found_input=True)
     for (c, r) in errs[:1]:
-        ctx.violation({"kind": "analyzer-raised", "crystal": c["crystal"], "sg": c["sg"], "error": r, "broken_obligation": broken}, found_input=True)
+        ctx.violation({"kind": "analyzer-raised", "crystal": c["crystal"], "sg": c["sg"], "error": r, "broken_obligation": broken,
+                       "getters_called_first": (r or {}).get("getters_called_first")}, found_input=True)
     ctx.coverage["predicate_failures"] = [{"sg": c1["sg"], "clauses": bad} for c1, c2, bad in viol[:20]]
     if failing and not viol and not errs:
         cid = failing[0]
@@ -86,13 +89,14 @@ def run(ctx):
 
 def replay(ctx, rep):
     if "crystal_a" in rep:
-        rows = H.run_impl([{"id": 0, "crystal": rep["crystal_a"], "tol": rep.get("tol_a", 1e-3)}, {"id": 1, "crystal": rep["crystal_b"], "tol": rep.get("tol_b", 1e-3)}], jobs=1)
+        rows = H.run_impl([{"id": 0, "crystal": rep["crystal_a"], "tol": rep.get("tol_a", 1e-3), "getters": rep.get("getters_called_first_a") or []},
+                           {"id": 1, "crystal": rep["crystal_b"], "tol": rep.get("tol_b", 1e-3), "getters": rep.get("getters_called_first_b") or []}], jobs=1)
         if any("error" in rows[i] for i in (0, 1)) or H.c06_pair_predicate(rows[0], rows[1], rep["sg"], None):
             ctx.violation(rep, found_input=True)
         else:
             print("replay: property holds on this pair now")
     elif "crystal" in rep:
-        rows = H.run_impl([{"id": 0, "crystal": rep["crystal"]}], jobs=1)
+        rows = H.run_impl([{"id": 0, "crystal": rep["crystal"], "getters": rep.get("getters_called_first") or []}], jobs=1)
         if "error" in rows[0]:
             ctx.violation(rep, found_input=True)
         else:
